@@ -215,11 +215,21 @@ Section LoopP.
 Variable elem : parser pyv.
 
 Lemma iter_done m r : Nat.iter m (step elem) (Done r) = Done r.
-Proof. induction m as [|m IH]; cbn [Nat.iter nat_rect]; [reflexivity|]. now rewrite IH. Qed.
+Proof.
+  induction m as [|m IH]; [reflexivity|].
+  change (Nat.iter (S m) (step elem) (Done r)) with (step elem (Nat.iter m (step elem) (Done r))).
+  now rewrite IH.
+Qed.
 
 Lemma iter_add (m n : nat) (st : lstate TxV BlockV HdrV) :
   Nat.iter (m + n) (step elem) st = Nat.iter m (step elem) (Nat.iter n (step elem) st).
-Proof. induction m as [|m IH]; cbn [plus Nat.iter nat_rect]; [reflexivity|]. now rewrite <- IH. Qed.
+Proof.
+  induction m as [|m IH]; [reflexivity|].
+  change (Nat.iter (S m + n) (step elem) st) with (step elem (Nat.iter (m + n) (step elem) st)).
+  change (Nat.iter (S m) (step elem) (Nat.iter n (step elem) st))
+    with (step elem (Nat.iter m (step elem) (Nat.iter n (step elem) st))).
+  now rewrite IH.
+Qed.
 
 Lemma iter_succ_r (n : nat) (st : lstate TxV BlockV HdrV) :
   Nat.iter (S n) (step elem) st = Nat.iter n (step elem) (step elem st).
@@ -285,12 +295,13 @@ Qed.
 
 Lemma tuple_frame ks (vs : list pyv) :
   Forall2 wt ks vs -> existsb (codec_eqb CO) ks = false ->
-  ss (map char_of ks) vs = Ret (wire_tuple_ ks vs) /  forall rest n, (length ks <= n)%nat -> ps n (map char_of ks) (wire_tuple_ ks vs ++ rest) = Ret (vs, rest).
+  ss (map char_of ks) vs = Ret (wire_tuple_ ks vs) /\
+  forall rest n, (length ks <= n)%nat -> ps n (map char_of ks) (wire_tuple_ ks vs ++ rest) = Ret (vs, rest).
 Proof.
   induction 1 as [|k v ks vs Hwt _ IH]; intros Hno.
   - split; [reflexivity|]. intros rest n _. apply ps_nil.
   - apply no_opt_cons in Hno. destruct Hno as [Hk Hno]. destruct (IH Hno) as [IHs IHp].
-    assert (Hopt : forall rest, k = CO -> v = VNone -> rest = []) by (intros; contradiction).
+    assert (Hopt : forall rest : bytes, k = CO -> v = VNone -> rest = []) by (intros; contradiction).
     split.
     + cbn [map stream_struct wire_tuple]. rewrite char_of_lookup.
       destruct (codec_frame k v [] Hwt (Hopt [])) as [-> _]. cbn [bind]. rewrite IHs. reflexivity.
@@ -313,7 +324,8 @@ Proof. destruct k, e; cbn [wt]; intros H; try contradiction; reflexivity. Qed.
 
 Lemma elem_frame ks (e : pyv) :
   wt_elem ks e -> existsb (codec_eqb CO) ks = false ->
-  ss (map char_of ks) (match e with VTuple t => t | _ => [e] end) = Ret (wire_elem_ ks e) /  forall rest n, (length ks <= n)%nat -> elem_parser n (map char_of ks) (wire_elem_ ks e ++ rest) = Ret (e, rest).
+  ss (map char_of ks) (match e with VTuple t => t | _ => [e] end) = Ret (wire_elem_ ks e) /\
+  forall rest n, (length ks <= n)%nat -> elem_parser n (map char_of ks) (wire_elem_ ks e ++ rest) = Ret (e, rest).
 Proof.
   intros Hwt Hno. destruct ks as [|k [|k2 ks]].
   - cbn [wt_elem] in Hwt. destruct e; try contradiction. inversion Hwt; subst.
@@ -330,7 +342,8 @@ Qed.
 
 Lemma elems_frame ks (es : list pyv) n :
   Forall (wt_elem ks) es -> existsb (codec_eqb CO) ks = false -> (length ks <= n)%nat ->
-  pack_elems stream_T stream_B stream_z header_of (map char_of ks) es = Ret (concat (map (wire_elem_ ks) es)) /  Forall2 (fun e b => forall r, elem_parser n (map char_of ks) (b ++ r) = Ret (e, r)) es (map (wire_elem_ ks) es).
+  pack_elems stream_T stream_B stream_z header_of (map char_of ks) es = Ret (concat (map (wire_elem_ ks) es)) /\
+  Forall2 (fun e b => forall r, elem_parser n (map char_of ks) (b ++ r) = Ret (e, r)) es (map (wire_elem_ ks) es).
 Proof.
   intros H Hno Hn. induction H as [|e es He _ [IHs IHp]].
   - split; [reflexivity|constructor].
@@ -362,7 +375,8 @@ Qed.
 
 Lemma field_frame ft (v : pyv) rest :
   wt_field ft v -> arr_no_opt ft = true -> (ft = FOne CO -> v = VNone -> rest = []) ->
-  pack_field stream_T stream_B stream_z header_of (chars_of_ftype ft) v = Ret (wire_field_ ft v) /  forall n more, (length (chars_of_ftype ft) <= S n)%nat ->
+  pack_field stream_T stream_B stream_z header_of (chars_of_ftype ft) v = Ret (wire_field_ ft v) /\
+  forall n more, (length (chars_of_ftype ft) <= S n)%nat ->
     ps (S n) (chars_of_ftype ft ++ more) (wire_field_ ft v ++ rest) =
     bind (ps n more rest) (fun y => let '(items, r) := y in Ret (v :: items, r)).
 Proof.
@@ -372,7 +386,7 @@ Proof.
     destruct (codec_frame k v rest Hwt Hopt') as [_ Hp].
     assert (Hs : sc k v = Ret (wire_ k v)).
     { destruct k; try (apply (codec_frame _ v [] Hwt); intros; discriminate).
-      destruct v; cbn [wt] in Hwt; try contradiction; reflexivity. }
+      destruct v; cbn [wt] in Hwt; try contradiction; [reflexivity | destruct b; reflexivity]. }
     split.
     + unfold pack_field. rewrite char_of_not_lbracket. cbn [stream_struct]. rewrite char_of_lookup, Hs.
       cbn [bind]. now rewrite app_nil_r.
@@ -396,4 +410,278 @@ Proof.
       destruct (elems_frame ks l n Hall Hno ltac:(lia)) as [_ HF].
       rewrite (parse_array_ok _ l _ rest HF Hlen). reflexivity.
 Qed.
+
+(* ---- whole messages ---------------------------------------------------------------------------------------- *)
+Lemma ftype_of_text_chars ty ft : ftype_of_text ty = Some ft -> ty = chars_of_ftype ft.
+Proof.
+  unfold ftype_of_text. destruct (ftype_guess ty) as [g|]; [|discriminate].
+  destruct (bytes_eqb ty (chars_of_ftype g)) eqn:E; [|discriminate].
+  intros H. injection H as <-. now apply bytes_eqb_eq.
+Qed.
+
+Lemma opt_only_last_cons ft fts :
+  opt_only_last (ft :: fts) = true -> (fts = [] \/ is_opt ft = false) /\ opt_only_last fts = true.
+Proof.
+  destruct fts as [|ft2 fts]; [intros _; split; [now left|reflexivity]|].
+  cbn [opt_only_last]. intros H. apply andb_true_iff in H. destruct H as [H1 H2].
+  apply negb_true_iff in H1. split; [now right|exact H2].
+Qed.
+
+Lemma fields_frame : forall layout fts (vals : list pyv) kwargs,
+  layout_ftypes layout = Some fts -> Forall2 wt_field fts vals ->
+  forallb arr_no_opt fts = true -> opt_only_last fts = true ->
+  (forall nm v, In (nm, v) (combine (map fst layout) vals) -> str_lookup kwargs nm = Some v) ->
+  pack_fields stream_T stream_B stream_z header_of layout kwargs = Ret (wire_message_ fts vals) /\
+  forall n, (length (layout_types layout) <= n)%nat ->
+    ps n (layout_types layout) (wire_message_ fts vals) = Ret (vals, []).
+Proof.
+  induction layout as [|[nm ty] layout IH]; intros fts vals kwargs Hft Hwt Hno Hopt Hkw.
+  - cbn [layout_ftypes] in Hft. injection Hft as <-. inversion Hwt; subst.
+    split; [reflexivity|]. intros n _. apply ps_nil.
+  - cbn [layout_ftypes] in Hft.
+    destruct (ftype_of_text ty) as [ft|] eqn:Eft; [|discriminate].
+    destruct (layout_ftypes layout) as [fts'|] eqn:Efts; [|discriminate].
+    injection Hft as <-. inversion Hwt as [|ft0 v fts0 vals' Hv Hvals]; subst.
+    apply ftype_of_text_chars in Eft. subst ty.
+    cbn [forallb] in Hno. apply andb_true_iff in Hno. destruct Hno as [Hno1 Hno].
+    apply opt_only_last_cons in Hopt. destruct Hopt as [Hlast Hopt].
+    assert (Hkw' : forall nm' v', In (nm', v') (combine (map fst layout) vals') -> str_lookup kwargs nm' = Some v').
+    { intros nm' v' Hin. apply Hkw. cbn [map fst combine]. right. exact Hin. }
+    destruct (IH fts' vals' kwargs eq_refl Hvals Hno Hopt Hkw') as [IHs IHp].
+    assert (Hrest : ft = FOne CO -> v = VNone -> wire_message_ fts' vals' = []).
+    { intros -> _. destruct Hlast as [-> | Hc]; [reflexivity | discriminate]. }
+    destruct (field_frame ft v (wire_message_ fts' vals') Hv Hno1 Hrest) as [Hs Hp].
+    split.
+    + cbn [pack_fields]. rewrite (Hkw nm v) by (cbn [map fst combine]; now left).
+      rewrite Hs. cbn [bind]. rewrite IHs. reflexivity.
+    + intros n Hn. unfold layout_types in Hn |- *. cbn [map snd concat] in Hn |- *.
+      rewrite app_length in Hn. cbn [wire_message].
+      assert (Hpos : (1 <= length (chars_of_ftype ft))%nat).
+      { destruct ft; cbn [chars_of_ftype length]; lia. }
+      destruct n as [|n]; [lia|].
+      rewrite Hp by lia. fold (layout_types layout). rewrite IHp by (unfold layout_types; lia). reflexivity.
+Qed.
+
+Lemma combine_fst_length {A B C} (l : list (A * B)) (vals : list C) :
+  length vals = length l -> map fst (combine (map fst l) vals) = map fst l.
+Proof.
+  revert vals. induction l as [|[a b] l IH]; intros [|v vals] H; cbn in *; try discriminate; [reflexivity|].
+  f_equal. apply IH. lia.
+Qed.
+
+Lemma layout_ftypes_length layout fts : layout_ftypes layout = Some fts -> length fts = length layout.
+Proof.
+  revert fts. induction layout as [|[nm ty] layout IH]; intros fts H; cbn [layout_ftypes] in H.
+  - now injection H as <-.
+  - destruct (ftype_of_text ty); [|discriminate]. destruct (layout_ftypes layout) eqn:E; [|discriminate].
+    injection H as <-. cbn [length]. now rewrite (IH _ eq_refl).
+Qed.
+
+(* pack = the wire form; reading it back gives the field values under their names and leaves nothing *)
+Lemma message_frame layout fts (vals : list pyv) kwargs :
+  layout_ok layout = true -> layout_ftypes layout = Some fts -> Forall2 wt_field fts vals ->
+  (forall nm v, In (nm, v) (combine (map fst layout) vals) -> str_lookup kwargs nm = Some v) ->
+  pack_fields stream_T stream_B stream_z header_of layout kwargs = Ret (wire_message_ fts vals) /\
+  parse_message parse_T parse_B parse_z ip4 ict layout (wire_message_ fts vals)
+    = Ret (combine (map fst layout) vals, []).
+Proof.
+  intros Hok Hft Hwt Hkw. unfold layout_ok in Hok. rewrite Hft in Hok.
+  apply andb_true_iff in Hok. destruct Hok as [Hok Hno]. apply andb_true_iff in Hok. destruct Hok as [_ Hopt].
+  destruct (fields_frame layout fts vals kwargs Hft Hwt Hno Hopt Hkw) as [Hs Hp].
+  split; [exact Hs|]. unfold parse_message. rewrite Hp by lia. reflexivity.
+Qed.
+
+(* association lists with distinct keys *)
+Lemma nodupb_cons x l : nodupb (x :: l) = true -> ~ In x l /\ nodupb l = true.
+Proof.
+  cbn [nodupb]. intros H. apply andb_true_iff in H. destruct H as [H1 H2]. split; [|exact H2].
+  intros Hin. apply negb_true_iff in H1.
+  assert (existsb (bytes_eqb x) l = true) by (apply existsb_exists; exists x; split; [exact Hin|apply bytes_eqb_refl]).
+  congruence.
+Qed.
+
+Lemma str_lookup_in {A} (d : list (bytes * A)) k v :
+  nodupb (map fst d) = true -> In (k, v) d -> str_lookup d k = Some v.
+Proof.
+  induction d as [|[k' v'] d IH]; intros Hnd Hin; [contradiction|].
+  cbn [map fst] in Hnd. apply nodupb_cons in Hnd. destruct Hnd as [Hni Hnd].
+  cbn [str_lookup]. destruct Hin as [Heq | Hin].
+  - injection Heq as -> ->. now rewrite bytes_eqb_refl.
+  - destruct (bytes_eqb k k') eqn:E.
+    + apply bytes_eqb_eq in E. subst k'. exfalso. apply Hni. apply in_map_iff. exists (k, v). split; [reflexivity|exact Hin].
+    + apply IH; assumption.
+Qed.
+
+Lemma nodupb_app_l a b : nodupb (a ++ b) = true -> nodupb a = true.
+Proof.
+  induction a as [|x a IH]; [reflexivity|]. cbn [app]. intros H. apply nodupb_cons in H. destruct H as [Hni H].
+  cbn [nodupb]. rewrite (IH H), andb_true_r. apply negb_true_iff.
+  destruct (existsb (bytes_eqb x) a) eqn:E; [|reflexivity].
+  apply existsb_exists in E. destruct E as [y [Hy Heq]]. apply bytes_eqb_eq in Heq. subst y.
+  exfalso. apply Hni. apply in_or_app. now left.
+Qed.
+
+(* the canonical keyword arguments: exactly the fields, in layout order *)
+Lemma kwargs_canonical layout (vals : list pyv) :
+  layout_ok layout = true -> length vals = length layout ->
+  forall nm v, In (nm, v) (combine (map fst layout) vals) -> str_lookup (combine (map fst layout) vals) nm = Some v.
+Proof.
+  intros Hok Hlen nm v Hin. apply str_lookup_in; [|exact Hin].
+  rewrite combine_fst_length by exact Hlen.
+  unfold layout_ok in Hok. destruct (layout_ftypes layout); [|discriminate].
+  apply andb_true_iff in Hok. destruct Hok as [Hok _]. apply andb_true_iff in Hok. destruct Hok as [Hnd _].
+  now apply nodupb_app_l in Hnd.
+Qed.
+
+Lemma parse_from_data_unfold msgs al post name layout data d rest :
+  str_lookup msgs name = Some layout ->
+  parse_message parse_T parse_B parse_z ip4 ict layout data = Ret (d, rest) ->
+  parse_from_data parse_T parse_B parse_z ip4 ict msgs al post name data =
+  (if bytes_eqb name (str "alert") then post_unpack_alert parse_T parse_B parse_z ip4 ict al d
+   else if bytes_eqb name (str "merkleblock") then post d else Ret d).
+Proof. intros H1 H2. unfold parse_from_data. rewrite H1, H2. reflexivity. Qed.
+
+Lemma bytes_eqb_neq a b : a <> b -> bytes_eqb a b = false.
+Proof. intros H. destruct (bytes_eqb a b) eqn:E; [|reflexivity]. apply bytes_eqb_eq in E. contradiction. Qed.
+
+Lemma table_entry msgs name layout :
+  table_ok msgs = true -> In (name, layout) msgs ->
+  str_lookup msgs name = Some layout /\ layout_ok layout = true /\ exists fts, layout_ftypes layout = Some fts.
+Proof.
+  intros Hok Hin. unfold table_ok in Hok. apply andb_true_iff in Hok. destruct Hok as [Hnd Hall].
+  assert (Hl : layout_ok layout = true).
+  { rewrite forallb_forall in Hall. apply (Hall (name, layout) Hin). }
+  split; [now apply str_lookup_in|]. split; [exact Hl|].
+  unfold layout_ok in Hl. destruct (layout_ftypes layout) as [fts|]; [now exists fts|discriminate].
+Qed.
+
+(* the generic statement over ANY layout table that passes table_ok *)
+Lemma all_messages_generic msgs : table_ok msgs = true ->
+  forall name layout, In (name, layout) msgs ->
+  exists fts, layout_ftypes layout = Some fts /\
+  forall (vals : list pyv) kwargs, Forall2 wt_field fts vals ->
+    (forall nm v, In (nm, v) (combine (map fst layout) vals) -> str_lookup kwargs nm = Some v) ->
+    pack_from_data stream_T stream_B stream_z header_of msgs name kwargs = Ret (wire_message_ fts vals) /\
+    parse_message parse_T parse_B parse_z ip4 ict layout (wire_message_ fts vals)
+      = Ret (combine (map fst layout) vals, []) /\
+    forall al post, name <> str "alert" -> name <> str "merkleblock" ->
+      parse_from_data parse_T parse_B parse_z ip4 ict msgs al post name (wire_message_ fts vals)
+        = Ret (combine (map fst layout) vals).
+Proof.
+  intros Hok name layout Hin. destruct (table_entry msgs name layout Hok Hin) as [Hlk [Hl [fts Hft]]].
+  exists fts. split; [exact Hft|]. intros vals kwargs Hwt Hkw.
+  destruct (message_frame layout fts vals kwargs Hl Hft Hwt Hkw) as [Hs Hp].
+  split; [unfold pack_from_data; rewrite Hlk; exact Hs|]. split; [exact Hp|].
+  intros al post Ha Hm. rewrite (parse_from_data_unfold msgs al post name layout _ _ _ Hlk Hp).
+  now rewrite (bytes_eqb_neq _ _ Ha), (bytes_eqb_neq _ _ Hm).
+Qed.
+
+(* ---- the generated table ------------------------------------------------------------------------------------ *)
+(* alert: the payload (declared type S, any bytes) must itself parse as an alert sub-message, else
+   post_unpack_alert raises — the exclusion predicate of the known finding alert-payload-not-alert *)
+Definition alert_payload_parses (vals : list pyv) : Prop :=
+  match vals with
+  | VBytes p :: _ => is_ret (parse_message parse_T parse_B parse_z ip4 ict alert_layout p) = true
+  | _ => True
+  end.
 End P.
+
+Lemma std_table_ok : table_ok std_messages = true.
+Proof. vm_compute. reflexivity. Qed.
+Lemma std_alert_layout_ok : layout_ok alert_layout = true.
+Proof. vm_compute. reflexivity. Qed.
+Lemma std_layouts_match : layouts_match std_messages protocol_layouts = true.
+Proof. vm_compute. reflexivity. Qed.
+Lemma std_post_unpack_names : post_unpack_names = [str "alert"; str "merkleblock"].
+Proof. reflexivity. Qed.
+
+Lemma codec_of_char_inv c k : codec_of_char c = Some k -> c = char_of k.
+Proof. destruct c; vm_compute; intros H; try discriminate; injection H as <-; reflexivity. Qed.
+
+(* the characters the implementation registers are exactly the sixteen the model interprets *)
+Lemma registered_chars_exact c : In c registered_chars <-> exists k, codec_of_char c = Some k.
+Proof.
+  split.
+  - intros H. assert (Hall : forallb (fun c => match codec_of_char c with Some _ => true | None => false end) registered_chars = true)
+      by (vm_compute; reflexivity).
+    rewrite forallb_forall in Hall. specialize (Hall c H). destruct (codec_of_char c) as [k|]; [now exists k|discriminate].
+  - intros [k H]. apply codec_of_char_inv in H. subst c.
+    assert (He : existsb (byte_eqb (char_of k)) registered_chars = true) by (destruct k; vm_compute; reflexivity).
+    apply existsb_exists in He. destruct He as [x [Hx Hxe]]. apply byte_eqb_eq in Hxe. now subst x.
+Qed.
+
+Section Std.
+Variables TxV BlockV HdrV : Type.
+Variable parse_T : parser TxV.
+Variable stream_T : TxV -> bytes.
+Variable parse_B : parser BlockV.
+Variable stream_B : BlockV -> bytes.
+Variable parse_z : parser HdrV.
+Variable stream_z : HdrV -> bytes.
+Variable header_of : BlockV -> HdrV.
+Hypothesis frame_T : forall v rest, parse_T (stream_T v ++ rest) = Ret (v, rest).
+Hypothesis frame_B : forall v rest, parse_B (stream_B v ++ rest) = Ret (v, rest).
+Hypothesis frame_z : forall v rest, parse_z (stream_z v ++ rest) = Ret (v, rest).
+Variable post_merkleblock : list (bytes * pyval TxV BlockV HdrV) -> outcome (list (bytes * pyval TxV BlockV HdrV)).
+Notation pyv := (pyval TxV BlockV HdrV).
+Notation std_pack := (pack_from_data stream_T stream_B stream_z header_of std_messages).
+Notation std_parse_message := (parse_message parse_T parse_B parse_z ip4_header inv_checked_types).
+Notation std_parse := (parse_from_data parse_T parse_B parse_z ip4_header inv_checked_types std_messages alert_layout post_merkleblock).
+Notation wire_message_ := (wire_message stream_T stream_B stream_z).
+
+Lemma std_all_messages : forall name layout, In (name, layout) std_messages ->
+  exists fts, layout_ftypes layout = Some fts /\
+  forall (vals : list pyv) kwargs, Forall2 wt_field fts vals ->
+    (forall nm v, In (nm, v) (combine (map fst layout) vals) -> str_lookup kwargs nm = Some v) ->
+    std_pack name kwargs = Ret (wire_message_ fts vals) /\
+    std_parse_message layout (wire_message_ fts vals) = Ret (combine (map fst layout) vals, []) /\
+    (name <> str "alert" -> name <> str "merkleblock" ->
+      std_parse name (wire_message_ fts vals) = Ret (combine (map fst layout) vals)).
+Proof.
+  intros name layout Hin.
+  destruct (all_messages_generic TxV BlockV HdrV parse_T stream_T parse_B stream_B parse_z stream_z header_of
+              ip4_header inv_checked_types frame_T frame_B frame_z std_messages std_table_ok name layout Hin)
+    as [fts [Hft H]].
+  exists fts. split; [exact Hft|]. intros vals kwargs Hwt Hkw. destruct (H vals kwargs Hwt Hkw) as [H1 [H2 H3]].
+  split; [exact H1|]. split; [exact H2|]. intros Ha Hm. apply H3; assumption.
+Qed.
+
+(* parse_from_data including the post-processing steps *)
+Lemma std_parse_from_data : forall name layout fts (vals : list pyv),
+  In (name, layout) std_messages -> layout_ftypes layout = Some fts -> Forall2 wt_field fts vals ->
+  (name = str "alert" -> alert_payload_parses TxV BlockV HdrV parse_T parse_B parse_z ip4_header inv_checked_types vals) ->
+  (name = str "merkleblock" -> exists extra,
+      post_merkleblock (combine (map fst layout) vals) = Ret (combine (map fst layout) vals ++ extra)) ->
+  exists extra, std_parse name (wire_message_ fts vals) = Ret (combine (map fst layout) vals ++ extra).
+Proof.
+  intros name layout fts vals Hin Hft Hwt Halert Hmb.
+  destruct (table_entry std_messages name layout std_table_ok Hin) as [Hlk [Hl _]].
+  assert (Hkw := kwargs_canonical TxV BlockV HdrV layout vals Hl).
+  assert (Hlen : length vals = length layout).
+  { rewrite <- (layout_ftypes_length layout fts Hft). symmetry. eapply Forall2_length. exact Hwt. }
+  destruct (message_frame TxV BlockV HdrV parse_T stream_T parse_B stream_B parse_z stream_z header_of
+              ip4_header inv_checked_types frame_T frame_B frame_z layout fts vals _ Hl Hft Hwt (Hkw Hlen)) as [_ Hp].
+  rewrite (parse_from_data_unfold TxV BlockV HdrV parse_T parse_B parse_z ip4_header inv_checked_types
+             std_messages alert_layout post_merkleblock name layout _ _ _ Hlk Hp).
+  destruct (bytes_eqb name (str "alert")) eqn:Ea.
+  - apply bytes_eqb_eq in Ea. subst name. specialize (Halert eq_refl).
+    assert (Hl0 : str_lookup std_messages (str "alert") = Some [(str "payload", str "S"); (str "signature", str "S")])
+      by (vm_compute; reflexivity).
+    rewrite Hl0 in Hlk. injection Hlk as <-.
+    vm_compute in Hft. injection Hft as <-.
+    inversion Hwt as [|ft1 v1 fts1 vals1 Hv1 Hvals1]; subst.
+    inversion Hvals1 as [|ft2 v2 fts2 vals2 Hv2 Hvals2]; subst.
+    inversion Hvals2; subst.
+    cbn [wt_field wt] in Hv1. destruct v1; try contradiction.
+    cbn [alert_payload_parses] in Halert.
+    unfold post_unpack_alert. cbn [map fst combine].
+    change (str_lookup ((str "payload", VBytes b) :: (str "signature", v2) :: nil) (str "payload"))
+      with (Some (VBytes b : pyv)).
+    destruct (parse_message parse_T parse_B parse_z ip4_header inv_checked_types alert_layout b) as [[d1 r]| |];
+      try discriminate.
+    cbn [bind]. eexists. reflexivity.
+  - destruct (bytes_eqb name (str "merkleblock")) eqn:Em.
+    + apply bytes_eqb_eq in Em. exact (Hmb Em).
+    + exists []. now rewrite app_nil_r.
+Qed.
+End Std.
